@@ -139,10 +139,19 @@ class Abs:
             if not hs:
                 return True, []
             S[a[0]]["h"] = []
-            if hs[-1] == me or me in self.pending:
-                # own handle last (or sole), or already queued: contract of co_await, outside the quantifier
+            if me in self.pending:
+                # the awaiting coroutine is already queued (it is not suspended, so it was not a *ready* coroutine when it
+                # was handed in): outside the quantifier
                 self.outside = True
                 return True, []
+            if hs[-1] == me:
+                # own handle last (or sole): pop() takes it for the symmetric transfer, the coroutine is resumed exactly
+                # once - by the transfer - and not queued again; nothing new is handed in. Coroutine mode: it continues at
+                # once, the other handles wait in the ready queue; normal mode: they have all run when co_await returns
+                if self.mode != "c":
+                    return True, list(hs)
+                self.pending = self.pending + hs[:-1]
+                return True, [me]
             if me in hs:
                 # own handle among the others (the yield idiom): it is queued exactly once, nothing new is handed in.
                 # normal mode: everything runs before co_await returns to plain code; coroutine mode: the scheduler
@@ -231,11 +240,38 @@ class SPSuite(Suite):
                                         else None))
 
         def own_handle_block():
-            """the awaiting coroutine puts its OWN handle into a suspend point (first / middle, never last) and awaits it"""
+            """the awaiting coroutine puts its OWN handle into a suspend point (first / middle / last / sole) and awaits it"""
             live = [i for i in range(nslots) if ab.live(i)]
             vac = [i for i in range(nslots) if ab.vacant(i)]
             m = me_id()
             k = rng.random()
+            if rng.random() < 0.3:
+                # own handle LAST or sole: `me = co_await self(); co_await me;` / `sp << me` added last
+                if mode == "c" and vac and k < 0.3:
+                    i = rng.choice(vac)
+                    emit("ctorself %d %d" % (i, m))
+                else:
+                    if live and k < 0.8:
+                        i = rng.choice(live)
+                    elif vac:
+                        i = rng.choice(vac)
+                        emit("ctor %d" % i if rng.random() < 0.6 else "ctorv %d %d" % (i, rng.randint(0, 999)))
+                    else:
+                        return
+                    for _ in range(rng.choice([0, 0, 1, 2, 3, 4, 6, 12])):
+                        h = fresh()
+                        if h is not None:
+                            emit("addh %d %d" % (i, h))
+                    if m in ab.slots[i]["h"]:
+                        return
+                    emit("addme %d %d" % (i, m))
+                vac = [j for j in range(nslots) if ab.vacant(j)]
+                if vac and rng.random() < 0.2:
+                    j = rng.choice(vac)
+                    emit("%s %d %d" % (rng.choice(["mov", "movb"]), j, i))
+                    i = j
+                emit("await %d %d" % (i, m))
+                return
             if mode == "c" and vac and k < 0.35:
                 i = rng.choice(vac)
                 emit("ctorself %d %d" % (i, m))                     # sp = co_await self(): own handle first
@@ -418,25 +454,24 @@ class SPSuite(Suite):
         return cases
 
     def own_handle_cases(self):
-        """deterministic: the awaiting coroutine's own handle first / in the middle / second to last among k others,
-        k across the inline limit and the doublings, both modes, directly and via co_await self()"""
+        """deterministic: the awaiting coroutine's own handle first / in the middle / second to last / last / sole among k
+        others, k across the inline limit and the doublings, both modes, directly and via co_await self()"""
         cases = []
         for mode in ("n", "c"):
             me = DRIVER_ID if mode == "c" else 100
-            for k in (1, 2, 3, 4, 5, 6, 7, 11, 12, 13, 24, 25, 39):
-                for pos in sorted({0, 1, k // 2, k - 1}):
-                    if pos > k - 1:
-                        continue
+            for k in (0, 1, 2, 3, 4, 5, 6, 7, 11, 12, 13, 24, 25, 39):
+                for pos in sorted({0, min(1, k), k // 2, max(k - 1, 0), k}):
                     for via in (("addme", "self") if mode == "c" and pos == 0 else ("addme",)):
                         ls = ["case 0 sp %s 3 %d" % (mode, NCOROS)]
                         if via == "self":
                             ls.append("ctorself 0 %d" % me)
                         else:
                             ls.append("ctor 0")
-                        for x in range(k):
+                        for x in range(k + 1):
                             if x == pos and via == "addme":
                                 ls.append("addme 0 %d" % me)
-                            ls.append("addh 0 %d" % x)
+                            if x < k:
+                                ls.append("addh 0 %d" % x)
                         ls += ["ctorh 1 80", "clear 1", "size 0", "await 0 %d" % me, "size 0", "addh 0 81",
                                "await 0 %d" % (me if mode == "c" else 101), "end"]
                         cases.append({"id": 0, "lines": ls})
@@ -483,7 +518,7 @@ class SPSuite(Suite):
         """every sequence of up to `depth` macro-operations over two suspend points (slot 0 starts with 3 handles, i.e.
         at the inline limit, slot 1 with one), in both modes; `grow` adds 4 handles at once (crosses the next boundary)"""
         alphabet = ["add0", "add1", "grow0", "mrg01", "mrg10", "asg01", "self0", "mov", "pop0", "pop1", "clear0", "del0",
-                    "del1", "await0", "await1", "own0", "conv1", "tmov1", "delx0", "clearx1", "csp"]
+                    "del1", "await0", "await1", "own0", "conv1", "tmov1", "delx0", "clearx1", "csp", "ownlast0"]
         cases = []
 
         def rec(prefix):
@@ -535,6 +570,10 @@ class SPSuite(Suite):
             elif m == "csp":
                 ls += ["csp 2 %d %d" % (nxt, nxt + 1), "mrg 0 2", "del 2"]
                 nxt += 2
+            elif m == "ownlast0":
+                # own handle last behind whatever slot 0 holds, then co_await
+                me += 1
+                ls += ["addme 0 %d" % (DRIVER_ID if mode == "c" else me), "await 0 %d" % (DRIVER_ID if mode == "c" else me)]
             elif m == "own0":
                 # own handle behind whatever slot 0 holds, one more handle behind it, then co_await
                 me += 1
@@ -705,8 +744,8 @@ class C06(Spec):
                   "(sampling), the assumption that resumed coroutines are trivial (they do not touch the suspend points or the queue while "
                   "being resumed), _count_flag does not overflow 2^31 handles")
     assumptions = ["resumed coroutines do not operate on the suspend points / ready queue while they are being resumed (trivial counting coroutines)",
-                   "the awaiting coroutine's own handle is not the LAST (or only) handle of the awaited suspend point and not already "
-                   "queued (own handle first / in the middle — the yield idiom via cocls::self — is covered: c06_await_own_handle)",
+                   "a coroutine that awaits a suspend point is not already waiting in the ready queue (its own handle inside the "
+                   "awaited suspend point, in any position, is covered: c06_await_own_handle)",
                    "the handle of a coroutine that is currently running is consumed only by that coroutine's own co_await",
                    "fewer than 2^31 handles per suspend point (unsigned _count_flag)",
                    "single thread (suspend_point is not a shared object)"]
